@@ -58,6 +58,9 @@ def cases(tier, seed):
         out.append({'P': 11, 'n': 3, 'order': 'rotate', 'scen': ['eq', 'lc'], 'over': {'NMX': 123}})
         out.append({'P': 16, 'n': 3, 'order': 'rotate', 'scen': ['ivp', 'eq', 'lc', 'bvp'], 'over': {'DS': 0.005, 'NPR': 7}})
         out.append({'P': 4, 'n': 3, 'order': 'rotate', 'scen': ['ivp', 'eq'], 'over': {}, 'sdecl': 'reverse'})
+        # overrides of constants that the export otherwise chooses itself
+        out.append({'P': 4, 'n': 2, 'order': 'reverse', 'scen': ['ivp', 'eq', 'lc'],
+                    'over': {'JAC': 0, 'ILP': 0, 'DSMAX': 0.05, 'NTST': 33, 'IPS': 1}})
         out.append({'P': 11, 'n': 2, 'order': 'reverse', 'scen': ['ivp'], 'over': {}, 'sdecl': 'reverse'})
         # every c.* file is the same whatever was exported before it: other scenario order, another model before
         out.append({'P': 4, 'n': 2, 'order': 'identity', 'scen': ['lc', 'eq', 'ivp'], 'over': {}, 'cmp_single': True})
@@ -67,7 +70,8 @@ def cases(tier, seed):
         for P in Ps:
             for order in ('identity', 'reverse', 'rotate'):
                 for n in (1, 2, 3):
-                    for scen, over in ((['ivp'], {}), (['eq', 'lc'], {'NMX': 123}), (['ivp', 'eq', 'lc', 'bvp'], {'DS': 0.005})):
+                    for scen, over in ((['ivp'], {}), (['eq', 'lc'], {'NMX': 123}), (['ivp', 'eq', 'lc', 'bvp'], {'DS': 0.005}),
+                                       (['eq', 'lc'], {'JAC': 0, 'ILP': 0, 'DSMAX': 0.05, 'NTST': 33})):
                         if (n == 1 or order == 'identity') and scen != ['ivp']:
                             continue
                         out.append({'P': P, 'n': n, 'order': order, 'scen': scen, 'over': over})
